@@ -92,8 +92,8 @@ CHECKS = {
         note="Trusts: Lean kernel; tools/extract; raft replays the durable log in order after restart; LevelDB durability across process exit; glog.Fatalf exits the process. The model is generic: which entries panic is whatever the real handlers do.",
     ),
     "C15": dict(
-        technique="Lean 4 theorems about the byte-level model of irc.ParseMessage / Message.Bytes and of the handlers' firstLine cut (clean in => one clean line out, <= 510 bytes), regenerated facts pinning both HTTP handlers to firstLine with cutset CR/LF/NUL, correspondence of the whole IRC layer with the real code, line predicate on every delivered line",
-        text="Machine-checked proof that rendering never exceeds 510 bytes, that a message assembled from strings without CR/LF/NUL renders to bytes without CR/LF/NUL (UTF-8 encoding lemma included), that parsing a clean line yields clean prefix/command/parameters (case-mapping tables checked by kernel evaluation), that firstLine returns a clean prefix of its input, and that posted text after cut+parse+render is one clean line; the handlers' use of firstLine and its cutset are re-extracted from the Go source on every run. State level, proved over all 41 handlers, all entry types and all histories: every stored string stays free of CR/LF/NUL and every output line is clean and at most 510 bytes (C15_history_outputs_clean); user names are bounded (after fix 916cb2e), prefixes are bounded, and every output line keeps its command after the 510-byte cut (C15_history_lines_have_command; assumptions on names chosen by services and the operator are explicit hypotheses). The body of firstLine is pinned, and the line predicate (length, CR/LF/NUL, [prefix] command) is evaluated on every delivered line of every generated history on the real code.",
+        technique="Lean 4 theorems about the byte-level model of irc.ParseMessage / Message.Bytes and of the handlers' firstLine cut (clean in => one clean line out, <= 510 bytes), regenerated facts pinning both HTTP handlers to firstLine, differential run of the real firstLine against the model's on generated texts, correspondence of the whole IRC layer with the real code, line predicate on every delivered line",
+        text="Machine-checked proof that rendering never exceeds 510 bytes, that a message assembled from strings without CR/LF/NUL renders to bytes without CR/LF/NUL (UTF-8 encoding lemma included), that parsing a clean line yields clean prefix/command/parameters (case-mapping tables checked by kernel evaluation), that firstLine returns a clean prefix of its input, and that posted text after cut+parse+render is one clean line; the handlers' use of firstLine is re-extracted from the Go source on every run and the real firstLine is run against the model's definition on generated texts (clean, cut, separators first/last/beyond byte 512, multi-byte). State level, proved over all 41 handlers, all entry types and all histories: every stored string stays free of CR/LF/NUL and every output line is clean and at most 510 bytes (C15_history_outputs_clean); user names are bounded (after fix 916cb2e), prefixes are bounded, and every output line keeps its command after the 510-byte cut (C15_history_lines_have_command; assumptions on names chosen by services and the operator are explicit hypotheses). The line predicate (length, CR/LF/NUL, [prefix] command) is evaluated on every delivered line of every generated history on the real code.",
         design_ref="DESIGN.md §4 C15",
         note="Trusts: Lean kernel; tools/extract; the pinned sorcix/irc.v2 parse/render model and the handlers are tied by differential runs; JSON decoding yields valid UTF-8.",
     ),
